@@ -581,19 +581,44 @@ Definition check_C12_safety (ops : list op) (o : obs) : bool :=
 Definition ops_have (f : op -> bool) (ops : list op) : bool := existsb f ops.
 
 (* the exit reason must be explained by an operation or by a timer that was due *)
+(* operations during which the runtime lets other tasks run *)
+Definition yields (o : op) : bool :=
+  match o with OSettle => true | OAdv _ => true | OProbe => true | _ => false end.
+
+Fixpoint aborted_unpolled_from (ops : list op) (i : nat) : bool :=
+  match ops with
+  | [] => false
+  | OAbort j :: r => if Nat.eqb i j then true else aborted_unpolled_from r i
+  | o :: r => if yields o then false else aborted_unpolled_from r i
+  end.
+
+(* timer i's handle was aborted before the runtime ran anything after its creation: its task
+   cannot have been polled even once, so the timer has not fired and must never fire *)
+Fixpoint fresh_aborted (ops : list op) (n : nat) (i : nat) : bool :=
+  match ops with
+  | [] => false
+  | OMk _ _ :: r => if Nat.eqb n i then aborted_unpolled_from r i else fresh_aborted r (S n) i
+  | _ :: r => fresh_aborted r n i
+  end.
+
 Definition check_exit (ops : list op) (tis : list tinfo) (ex : option (reason * N)) : bool :=
   match ex with
   | None => true
   | Some (r, te) =>
       match r with
       | RExitAfter m =>
-          existsb (fun ti => kind_eqb (ti_kind ti) KExit && (ti_dur ti / ms =? m)
+          ops_have (fun o => match o with OStop r'' => reason_eqb r r'' | _ => false end) ops
+          || existsb (fun x => match x with (i, ti) =>
+                             kind_eqb (ti_kind ti) KExit && (ti_dur ti / ms =? m)
                              && (ti_born ti + ti_dur ti <=? te)
-                             && (match ti_abort ti with Some ta => ti_born ti + ti_dur ti <=? ta | None => true end)) tis
+                             && (match ti_abort ti with Some ta => ti_born ti + ti_dur ti <=? ta | None => true end)
+                             && negb (fresh_aborted ops 0 i) end) (combine (seq 0 (length tis)) tis)
       | RKilled =>
           ops_have (fun o => match o with OKill => true | _ => false end) ops
-          || existsb (fun ti => kind_eqb (ti_kind ti) KKill && (ti_born ti + ti_dur ti <=? te)
-                                && (match ti_abort ti with Some ta => ti_born ti + ti_dur ti <=? ta | None => true end)) tis
+          || existsb (fun x => match x with (i, ti) =>
+                                kind_eqb (ti_kind ti) KKill && (ti_born ti + ti_dur ti <=? te)
+                                && (match ti_abort ti with Some ta => ti_born ti + ti_dur ti <=? ta | None => true end)
+                                && negb (fresh_aborted ops 0 i) end) (combine (seq 0 (length tis)) tis)
       | RDrained => ops_have (fun o => match o with ODrain => true | _ => false end) ops
       | ROther => false
       | r' => ops_have (fun o => match o with OStop r'' => reason_eqb r' r'' | _ => false end) ops
@@ -646,10 +671,19 @@ Definition check_probe (tis : list tinfo) (lf : option N) (p : N * bool * list b
   | _, None => true
   end.
 
+(* an abort before the timer task's first poll prevents everything: nothing of that timer is ever
+   handled and its handle reports the cancellation *)
+Definition check_fresh (ops : list op) (o : obs) (i : nat) : bool :=
+  if fresh_aborted ops 0 i
+  then Nat.eqb (length (ks_of i (o_log o))) 0
+       && match nth_error (o_res o) i with Some HCancelled => true | Some _ => false | None => true end
+  else true.
+
 Definition check_C12 (parked : bool) (ops : list op) (o : obs) : bool :=
   let tis := scan ops 0 [] in
   forallb (check_entry (if parked then open_time ops 0 else None) (time_points ops 0) tis (o_log o)) (o_log o)
   && forallb (fun e => match o_exit o with Some (_, te) => snd e <=? te | None => true end) (o_log o)
   && check_all_res (o_log o) (o_exit o) (o_left o) 0 tis (o_res o)
   && check_exit ops tis (o_exit o)
-  && forallb (check_probe tis (o_left o)) (o_probes o).
+  && forallb (check_probe tis (o_left o)) (o_probes o)
+  && forallb (check_fresh ops o) (seq 0 (length tis)).
